@@ -18,8 +18,8 @@ CFG = {
     "variants": [{"features": [], "env": {"SV_CLI": _CLI}}],
     "needs_cli": True,
     "lean_modules": ["SuccinctlyVerif.Props.C18"],
-    "lean_files": ["SuccinctlyVerif/Props/C18.lean", "SuccinctlyVerif/Proof/YamlPos.lean",
-                   "SuccinctlyVerif/Spec/YamlPos.lean", "SuccinctlyVerif/Model/YamlPos.lean"],
+    "lean_files": ["SuccinctlyVerif/Props/C18.lean", "SuccinctlyVerif/Proof/YamlValPos.lean",
+                   "SuccinctlyVerif/Spec/YamlValPos.lean", "SuccinctlyVerif/Model/YamlValPos.lean"],
     "generated": [],
     "rule": "request = one generated stream (acceptance) or one byte string (termination + position); distinct request lines",
     "explanation": "acc: admissible generated stream -> validate() and `yq --validate` accept; pos: arbitrary bytes -> "
